@@ -77,7 +77,10 @@ def main(argv=None):
               (prop, e))
         return EXIT_INCONCLUSIVE
 
-    for pre in getattr(mod, 'PRECHECKS', []):
+    pres = list(getattr(mod, 'PRECHECKS', []))
+    if tier == 'thorough':
+        pres += list(getattr(mod, 'PRECHECKS_THOROUGH', []))
+    for pre in pres:
         env = dict(os.environ)
         env['SYMX_NATIVE'] = '1'
         env['PYTHONPATH'] = VERIF + os.pathsep + REPO
